@@ -42,6 +42,8 @@ M("c01-erase-size", "C01", "erase of a two-child node forgets to decrement size"
   (BT, "    bt->size--;\n\n    return y;", "    if (y == bn) bt->size--;\n\n    return y;"))
 M("c01-find-static-probe", "C01", "find keeps its probe node in a static variable (not re-entrant)",
   (BT, "    const struct cstl_bintree_node * const bf = __cstl_bintree_node(bt, f);\n    struct cstl_bintree_node * bn = bt->root, *p = NULL;", "    static const struct cstl_bintree_node * bf;\n    struct cstl_bintree_node * bn = bt->root, *p = NULL;\n    bf = __cstl_bintree_node(bt, f);"))
+M("c01-rbswap-no-off", "C01", "rbtree swap forgets to exchange the red-black node offset (only visible when the two trees use different members)",
+  ("include/cstl/rbtree.h", "    cstl_bintree_swap(&a->t, &b->t);\n    cstl_swap(&a->off, &b->off, &t, sizeof(t));", "    cstl_bintree_swap(&a->t, &b->t);\n    (void)t;"), also=["C02"])
 # ----------------------------------------------------------------- C02
 M("c02-insert-colours", "C02", "insert fix-up: swapped colour assignments before the rotation",
   (RB, "        *BN_COLOR(x->p) = CSTL_RBTREE_COLOR_B;\n        *BN_COLOR(x->p->p) = CSTL_RBTREE_COLOR_R;\n        __cstl_bintree_rotate(t, x->p->p, r, l);",
